@@ -22,8 +22,11 @@ pub mod etag_spec {
         if s.len() > 0 && (s[0] == 0x20u8 || s[0] == 0x09u8) { skip_ows(s.subrange(1, s.len() as int)) } else { s }
     }
     pub enum Step { End, Corrupt, Item(Seq<u8>, Seq<u8>) }
-    /// One element of `1#entity-tag`: an entity-tag is `[W/]"` opaque `"` where the opaque part cannot contain `"`
-    /// (so commas and spaces inside a tag belong to the tag); after it an optional `,` and OWS.
+    /// One element of `1#entity-tag` (RFC 7230 7: `element *( OWS "," OWS element )`): an entity-tag is `[W/]"` opaque `"`
+    /// where the opaque part cannot contain `"` (so commas and spaces inside a tag belong to the tag); after it OWS, a `,`
+    /// and OWS lead to the next element.  OWS after the last tag is tolerated (a sender may not produce it, the usual
+    /// HTTP parsers strip it); anything else after a tag is left in place and makes the next step corrupt, except
+    /// that a tag may follow a tag directly (tolerated, as before).
     pub open spec fn list_step(rem: Seq<u8>) -> Step {
         if rem.len() == 0 { Step::End } else {
             let start: int = if rem.len() >= 3 && rem[0] == 0x57u8 && rem[1] == 0x2fu8 && rem[2] == 0x22u8 { 3 } else if rem[0] == 0x22u8 { 1 } else { -1 };
@@ -32,7 +35,8 @@ pub mod etag_spec {
                     None => Step::Corrupt,
                     Some(q) => {
                         let rest0 = rem.subrange(q + 1, rem.len() as int);
-                        let rest = if rest0.len() > 0 && rest0[0] == 0x2cu8 { skip_ows(rest0.subrange(1, rest0.len() as int)) } else { rest0 };
+                        let r1 = skip_ows(rest0);
+                        let rest = if r1.len() > 0 && r1[0] == 0x2cu8 { skip_ows(r1.subrange(1, r1.len() as int)) } else if r1.len() == 0 { r1 } else { rest0 };
                         Step::Item(rem.subrange(0, q + 1), rest)
                     }
                 }
@@ -56,7 +60,9 @@ pub mod etag_spec {
                 lemma_first_at_bounds(rem, start, 0x22u8);
                 if let Some(q) = first_at(rem, start, 0x22u8) {
                     let rest0 = rem.subrange(q + 1, rem.len() as int);
-                    if rest0.len() > 0 { lemma_skip_ows_len(rest0.subrange(1, rest0.len() as int)); }
+                    lemma_skip_ows_len(rest0);
+                    let r1 = skip_ows(rest0);
+                    if r1.len() > 0 { lemma_skip_ows_len(r1.subrange(1, r1.len() as int)); }
                 }
             }
         }
